@@ -422,6 +422,9 @@ func (c *trCtx) stmt(s ast.Stmt, k trK) trLines {
 					return c.returnMutCall(x, call, tf, recv)
 				}
 			}
+			if out, ok := c.createReturnCall(x); ok {
+				return out // return f(…) with several results (trans_units_create.go)
+			}
 			if call := c.isGetDefault(x.Results[0]); call != nil && c.nresults == 1 {
 				return c.getDefaultThen(call, func(v string) trLines { return c.returnTerm([]string{v}, x.Pos()) })
 			}
